@@ -709,3 +709,64 @@ mod tests {
         }
     }
 }
+
+/// Verification-only entry points (feature `trustfall_verif`): thin wrappers that expose
+/// the filter operator kernels of this module unchanged.
+#[cfg(feature = "trustfall_verif")]
+pub mod verif_hooks {
+    use crate::ir::FieldValue;
+
+    pub fn equals(l: &FieldValue, r: &FieldValue) -> bool {
+        super::equals(l, r)
+    }
+    pub fn greater_than(l: &FieldValue, r: &FieldValue) -> bool {
+        super::greater_than(l, r)
+    }
+    pub fn greater_than_or_equal(l: &FieldValue, r: &FieldValue) -> bool {
+        super::greater_than_or_equal(l, r)
+    }
+    pub fn less_than(l: &FieldValue, r: &FieldValue) -> bool {
+        super::less_than(l, r)
+    }
+    pub fn less_than_or_equal(l: &FieldValue, r: &FieldValue) -> bool {
+        super::less_than_or_equal(l, r)
+    }
+    pub fn has_substring(l: &FieldValue, r: &FieldValue) -> bool {
+        super::has_substring(l, r)
+    }
+    pub fn has_prefix(l: &FieldValue, r: &FieldValue) -> bool {
+        super::has_prefix(l, r)
+    }
+    pub fn has_suffix(l: &FieldValue, r: &FieldValue) -> bool {
+        super::has_suffix(l, r)
+    }
+    pub fn one_of(l: &FieldValue, r: &FieldValue) -> bool {
+        super::one_of(l, r)
+    }
+    pub fn contains(l: &FieldValue, r: &FieldValue) -> bool {
+        super::contains(l, r)
+    }
+    pub fn is_null(v: &FieldValue) -> bool {
+        super::is_null(v)
+    }
+
+    // The negated forms, built with the same `not!` macro the filter dispatch uses.
+    pub fn not_equals(l: &FieldValue, r: &FieldValue) -> bool {
+        (not!(equals))(l, r)
+    }
+    pub fn not_has_substring(l: &FieldValue, r: &FieldValue) -> bool {
+        (not!(has_substring))(l, r)
+    }
+    pub fn not_has_prefix(l: &FieldValue, r: &FieldValue) -> bool {
+        (not!(has_prefix))(l, r)
+    }
+    pub fn not_has_suffix(l: &FieldValue, r: &FieldValue) -> bool {
+        (not!(has_suffix))(l, r)
+    }
+    pub fn not_one_of(l: &FieldValue, r: &FieldValue) -> bool {
+        (not!(one_of))(l, r)
+    }
+    pub fn not_contains(l: &FieldValue, r: &FieldValue) -> bool {
+        (not!(contains))(l, r)
+    }
+}
